@@ -7,6 +7,14 @@
 //	  BuildUnixFSShardedDirectory for fanouts {8,256} | {8,16,64,256,1024}, and through the quick
 //	  builder's map (Go map order) -> link and size identical to the first build; a second store
 //	  gets the same result (repeated build).
+//	sharded directories with other HAMT hash functions: hashers murmur3 (0x22), sha2-256 (0x12),
+//	  sha2-512 (0x13), sha3-256 (0x16), blake2b-256 (0xb220), blake3 (0x1e) - those that
+//	  multihash.GetHasher rejects are skipped, 0x12 must exist - x fanouts {8,16,256,1024} x entry
+//	  counts {2,3,17,150}; for each: the same order into a fresh store ("repeat"), for n <= 3
+//	  EVERY other permutation, else the reversed order and 6 | 30 random permutations -> link and
+//	  size identical to the first build. Only builder outputs are compared (the HAMT reader need
+//	  not accept these hashers). One case per permutation:
+//	  "sharded:hasher=0x<code>,fanout=<f>,n=<n>,repeat|reversed|perm#<k>".
 //	files: widths {2,3,174}; chunkers size-4 (lengths 0..41), size-7, rabin-16-32-64 (3000 bytes),
 //	  default "" (300000 bytes) | + buzhash (700000 bytes), size-262144 (600001 bytes); readers:
 //	  bytes.Reader (baseline), iotest.OneByteReader, HalfReader, DataErrReader, a random fragmenter
@@ -27,6 +35,7 @@ import (
 	"github.com/ipld/go-ipld-prime"
 	"github.com/ipld/go-ipld-prime/datamodel"
 	cidlink "github.com/ipld/go-ipld-prime/linking/cid"
+	"github.com/multiformats/go-multihash"
 
 	"replay/vp"
 )
@@ -58,6 +67,102 @@ func res(l datamodel.Link, sz uint64, err error) result {
 		return result{err: err.Error()}
 	}
 	return result{link: l.String(), size: sz}
+}
+
+// permutations returns every permutation of 0..n-1 in lexicographic order (identity first).
+func permutations(n int) [][]int {
+	var out [][]int
+	var rec func(cur []int, used []bool)
+	rec = func(cur []int, used []bool) {
+		if len(cur) == n {
+			out = append(out, append([]int(nil), cur...))
+			return
+		}
+		for i := 0; i < n; i++ {
+			if !used[i] {
+				used[i] = true
+				rec(append(cur, i), used)
+				used[i] = false
+			}
+		}
+	}
+	rec(nil, make([]bool, n))
+	return out
+}
+
+// hasherCases: BuildUnixFSShardedDirectory with every available HAMT hash function is a function
+// of the SET of entries: order of the entries and earlier builds do not matter.
+func hasherCases(t *testing.T, r *vp.Run) {
+	rng := vp.Rng(1010) // own stream: the draws of the older cases stay what they were
+	hashers := []uint64{0x22}
+	for _, code := range []uint64{multihash.SHA2_256, multihash.SHA2_512, multihash.SHA3_256, multihash.BLAKE2B_MIN + 31, multihash.BLAKE3} {
+		if _, err := multihash.GetHasher(code); err != nil {
+			if code == multihash.SHA2_256 {
+				t.Fatalf("multihash.GetHasher(sha2-256): %v", err)
+			}
+			t.Logf("hasher 0x%x not available, skipped: %v", code, err)
+			continue
+		}
+		hashers = append(hashers, code)
+	}
+	for _, n := range []int{2, 3, 17, 150} {
+		names := vp.Names(n, rng)
+		ents := make([]dagpb.PBLink, n)
+		for i, nm := range names {
+			c, _ := vp.V1Raw.Prefix.Sum([]byte(nm))
+			ents[i], _ = builder.BuildUnixFSDirectoryEntry(nm, int64(i*13+1), cidlink.Link{Cid: c})
+		}
+		// the orders to try, shared by every hasher and fanout
+		type order struct {
+			name string
+			idx  []int
+		}
+		ident := make([]int, n)
+		for i := range ident {
+			ident[i] = i
+		}
+		orders := []order{{"repeat", ident}}
+		if n <= 3 {
+			for k, p := range permutations(n)[1:] {
+				orders = append(orders, order{fmt.Sprintf("perm#%d", k+1), p})
+			}
+		} else {
+			rev := make([]int, n)
+			for i := range rev {
+				rev[i] = n - 1 - i
+			}
+			orders = append(orders, order{"reversed", rev})
+			for k := 0; k < vp.Pick(6, 30); k++ {
+				orders = append(orders, order{fmt.Sprintf("perm#%d", k), rng.Perm(n)})
+			}
+		}
+		for _, code := range hashers {
+			for _, fanout := range []int{8, 16, 256, 1024} {
+				cfg := fmt.Sprintf("sharded:hasher=0x%x,fanout=%d,n=%d", code, fanout, n)
+				base := res(builder.BuildUnixFSShardedDirectory(fanout, code, ents, vp.NewStore().LS()))
+				if base.err != "" {
+					if code == 0x22 || code == multihash.SHA2_256 {
+						t.Fatalf("%s: %s", cfg, base.err)
+					}
+					t.Logf("%s: first build fails (%s), skipped", cfg, base.err)
+					continue
+				}
+				for _, o := range orders {
+					id := cfg + "," + o.name
+					es := make([]dagpb.PBLink, n)
+					for i, j := range o.idx {
+						es[i] = ents[j]
+					}
+					r.Eval(id)
+					r.Guard(id, func() {
+						if got := res(builder.BuildUnixFSShardedDirectory(fanout, code, es, vp.NewStore().LS())); got != base {
+							r.Fail(id, "entry order %v... gives %+v, first build (order 0,1,2,...) gave %+v", o.idx[:min(n, 6)], got, base)
+						}
+					})
+				}
+			}
+		}
+	}
 }
 
 func TestBounded(t *testing.T) {
@@ -148,6 +253,8 @@ func TestBounded(t *testing.T) {
 			}
 		}
 	}
+
+	hasherCases(t, r)
 
 	type fcase struct {
 		chunker string
